@@ -17,7 +17,9 @@ values are followed rather than statement shapes matched: which exception
 an exception selected into a local and raised once, a conditional expression,
 a private helper that returns or raises it all mean the same); a helper called
 for one candidate rule is executed as part of the rule loop's truth table; a
-loop left through `break` is followed to the `return` behind it; a Weighting /
+loop left through `break` is followed to the `return` behind it; a loop moved
+into a helper that its call sites feed with candidates is executed once per call
+site with the argument bound and the rule found followed back into the caller; a Weighting /
 RulePart construction is followed into a helper that only hands its parameters
 on; the traversal of update() is decided on the set of states it feeds itself
 with (recursion or work list).  Neutral restructurings of the matcher, the
@@ -43,13 +45,16 @@ LEVEL_TEXT = (
     "recursive search the static transition is tried, and its result returned, before the loop over the dynamic "
     "transitions, which visits State.dynamic in list order; StateMachineMatcher.update sorts every state's dynamic transitions ascending by the rule part's weight "
     "(stable list sort; every state visited: the traversal - recursion, generator or work list - starts at the root, feeds itself with the static and the "
-    "dynamic successors and skips none that has transitions below it); MapAdapter.match calls Map.update before the matcher on every path, Map.update "
+    "dynamic successors - directly or through a local container that is bound and then filled statement by statement, each such statement lying on every path of a "
+    "traversal step - and skips none that has transitions below it, a filtered iteration included); MapAdapter.match calls Map.update before the matcher on every path, Map.update "
     "reaches the matcher's update whenever _remap is set and Map.add sets _remap after adding; the converters' class-level "
     "weights, resolved through the MRO, satisfy int/float < string/default < path; the Weighting of a part counts its literal "
     "pieces negatively and carries the weights of the converters obtained from get_converter; (R3.2) 405 bookkeeping - the "
     "loops over candidate rules in the search are evaluated as truth tables over their condition atoms: methods are recorded "
     "(and websocket_mismatch set) only for rules that pass the same path-admission tests that guard `return rule, values`, an "
-    "admitted rule that is discarded only because of its methods is recorded, and sibling loops agree; (R3.3) in "
+    "admitted rule that is discarded only because of its methods is recorded, and sibling loops agree; a loop that sits in a helper nested in match() and runs over a "
+    "parameter counts as one loop per call site - over the candidates that site hands in (`state.rules`, a filtered iteration of it = a filtered loop, constant flags bound) - "
+    "and the rule it returns is followed through the calling function to the `return` that hands it on; no statement that records methods or sets the flag may lie outside the loops followed; (R3.3) in "
     "MapAdapter.match MethodNotAllowed is raised iff NoMatch.have_match_for is non-empty, with exactly that set, NotFound "
     "only on the remaining path - decided on the exception value that leaves the handler on every path under both valuations "
     "of `have_match_for is empty` (raised per branch, selected first and raised once, conditional expression, private helper "
@@ -93,6 +98,8 @@ ASSUMPTIONS = [
     "a local flag / alias is replaced by its defining expression only when that is its single reaching definition, the expression is pure (names, attributes, constants, comparisons, and/or/not) and none of its names is rebound in between",
     "a helper is taken to construct a Weighting / RulePart for its caller only if it is straight-line code that neither rebinds nor mutates its parameters; every construction in it then counts as one over the call's arguments",
     "a helper called for one candidate rule (closure of match(), method through self, module function) is executed as part of the rule loop only if it has no loop / try / with; anything else is exit 2",
+    "a rule loop inside a closure of match() over (an expression of) one of its parameters is judged once per call site of the closure; behind the call the rule found is followed through straight-line code and tests over it only (anything else on the way is exit 2); the number of rule loops is not prescribed",
+    "R3.1: a local container between a state and the recursion is taken to hold what any of its bindings / growth statements (`+=`, append, extend, add, update, insert) may put into it; that each contributing statement is executed on every traversal step is checked separately",
     "R3.3: along a path through the NoMatch handler the attributes of the caught exception keep their values (no assignment to them in the handler: checked); a condition that mentions have_match_for in a form whose meaning is not 'is it empty' is exit 2",
     "the traversal in StateMachineMatcher.update is judged by the successor states it feeds itself with; a condition under which it skips a successor is accepted only if it fails solely for states whose .static and .dynamic are both empty (walked over the valuations of those two atoms, every other atom open)",
     "`self.merge_slashes` of the matcher is the map-level setting (it is not assigned inside match(); checked)",
@@ -226,6 +233,20 @@ def _text(e: ast.AST, mapping: Mapping) -> str:
 def _renamed(e: ast.AST, mapping: Mapping) -> ast.AST:
     # re-parse instead of deepcopy: the loader hangs `_parent` links on every node
     return _Rename(mapping).visit(ast.parse(ast.unparse(e), mode="eval").body)
+
+
+def _unwalrus(e: ast.AST, names: t.Collection[str]) -> ast.AST:
+    """`(name := <value>)` read as `name`, for the names whose value the execution knows."""
+    if not names or not any(isinstance(x, ast.NamedExpr) for x in ast.walk(e)):
+        return e
+
+    class T(ast.NodeTransformer):
+        def visit_NamedExpr(self, n: ast.NamedExpr) -> ast.AST:  # noqa: N802
+            if n.target.id in names:
+                return ast.copy_location(ast.Name(id=n.target.id, ctx=ast.Load()), n)
+            return self.generic_visit(n)
+
+    return ast.fix_missing_locations(T().visit(ast.parse(ast.unparse(e), mode="eval").body))
 
 
 _PURE = (ast.Name, ast.Attribute, ast.Constant, ast.Compare, ast.BoolOp, ast.UnaryOp, ast.Subscript, ast.Load, ast.cmpop, ast.boolop, ast.unaryop, ast.expr_context)
@@ -381,22 +402,32 @@ class _Matcher:
         # loops over candidate rules: in the search function or in any helper nested in match()
         self.rule_loops = [n for n in ast.walk(self.match.node) if isinstance(n, ast.For) and _rules_iteration(n.iter, _enclosing_func(n)) is not None]
         self.loop_weight: dict[int, int] = {id(n): 1 for n in self.rule_loops}
-        # ... or over a parameter of such a helper that every call site fills with `<state>.rules`
+        # ... or over a parameter of such a helper that the call sites fill with the candidate rules of a state: the
+        # loop then stands for one loop per call site, over what that site hands in (`state.rules`, a filtered
+        # iteration of it ...) under the condition the call is made under
+        self.loop_sites: dict[int, list[tuple[ast.Call, ast.AST]]] = {}
         for n in ast.walk(self.match.node):
-            if not (isinstance(n, ast.For) and isinstance(n.iter, ast.Name)):
+            if not isinstance(n, ast.For) or any(n is x for x in self.rule_loops):
                 continue
             F = _enclosing_func(n)
             if not isinstance(F, (ast.FunctionDef, ast.AsyncFunctionDef)) or F is self.match.node:
                 continue
-            params = [a.arg for a in F.args.args]
-            if n.iter.id not in params or astq.assigns_to(F, n.iter.id):
+            params = [a.arg for a in [*F.args.posonlyargs, *F.args.args]]
+            used = [q for q in params if q in astq.names_in(n.iter) and not astq.assigns_to(F, q)]
+            if len(used) != 1:
                 continue
-            pos = params.index(n.iter.id)
+            prm = used[0]  # the loop runs over the parameter, or over an expression of it (`filter(pred, candidates)`)
+            pos = params.index(prm)
             sites = [c for c in astq.calls(self.match.node) if isinstance(c.func, ast.Name) and c.func.id == F.name]
-            filled = [astq.arg_or_kw(c, pos, n.iter.id) for c in sites]
-            if sites and all(isinstance(a, ast.Attribute) and a.attr == "rules" for a in filled):
+            filled = [astq.arg_or_kw(c, pos, prm) for c in sites]
+            over = [(a if isinstance(n.iter, ast.Name) else subst(n.iter, {prm: a})) if a is not None else None for a in filled]
+            its = [_rules_iteration(a, _enclosing_func(c)) if a is not None else None for c, a in zip(sites, over)]
+            if sites and all(i is not None for i in its):
                 self.rule_loops.append(n)
                 self.loop_weight[id(n)] = len(sites)
+                self.loop_sites[id(n)] = [(c, a) for c, a in zip(sites, over) if a is not None]
+            elif any(i is not None for i in its):
+                raise AnalysisError(f"{self.match.fq}: {F.name}() is handed the candidate rules of a state by some of its call sites only; cannot tell what it iterates at the others")
         # H: the set that receives `<rule>.methods` somewhere in match() (in a loop, or in a helper the loops call);
         # W: the flag that is handed to NoMatch next to it
         hs: list[str] = []
@@ -636,6 +667,10 @@ def _r31_order(ctx: Ctx, m: _Matcher) -> None:
             tests_v = [tn for tn in cfg.tests() if tn.kind == "test" and v in astq.names_in(tn.ast)]
             rets = [rn for rn in cfg.nodes if rn.kind == "stmt" and isinstance(rn.ast, ast.Return) and astq.is_name(rn.ast.value, v)]
             r_before = [rn for rn in rets if rn.id in cfg.reach(S, avoid_nodes=[D])]
+            if not r_before:
+                wrapped = [rn for rn in cfg.nodes if rn.kind == "stmt" and isinstance(rn.ast, ast.Return) and rn.ast.value is not None and v in astq.names_in(rn.ast.value) and rn.id in cfg.reach(S, avoid_nodes=[D])]
+                if wrapped:  # `return <something built from v>`: not the plain hand-back the rule reads
+                    raise AnalysisError(f"{fi.fq}.{fn.name}: the result of the static attempt leaves through `{norm(wrapped[0].ast)[:60]}`; cannot tell whether that hands it back unchanged")
             tested = any(tn is S for tn in tests_v) or D.id not in cfg.reach(S, avoid_nodes=tests_v)
             ctx.ob(
                 "R3.1", "a successful static attempt is returned before any dynamic transition is tried", bool(r_before) and tested,
@@ -748,7 +783,32 @@ def _descent_gaps(fi: FuncInfo, hr: HelperResolver, feeds: list[tuple[ast.AST, a
         for scope in {id(f[1]): f[1] for f in feeds if kind in f[3]}.values():
             cfg = cfg_of(fi) if scope is fi.node else hr.cfg(scope)
             feeders: list[Node] = []
+            through: dict[int, list[Node]] = {}  # feeder -> the statements that put successors of this kind into the local it hands on
             x = ""
+
+            def providers(flow: StateFlow, e: ast.AST | None) -> list[Node] | None:
+                """when the successors reach the feed through a local container: the statements (for one inside a loop,
+                the head of that loop) that put successors of this kind into it."""
+                if e is None:
+                    return None
+                out: list[Node] = []
+                via_local = False
+                for nm in astq.names_in(e):
+                    for st, kinds in flow.contrib.get(nm, []):
+                        via_local = True
+                        if kind not in kinds:
+                            continue
+                        at: ast.AST = st
+                        cur = astq.parent(st)
+                        while cur is not None and cur is not scope:
+                            if isinstance(cur, (ast.For, ast.AsyncFor)):
+                                at = cur
+                            cur = astq.parent(cur)
+                        pn = cfg.by_ast.get(id(at), [None])[0] if isinstance(at, (ast.For, ast.AsyncFor)) else cfg.node_of(at)
+                        if pn is None:
+                            raise AnalysisError(f"{fi.fq}: no CFG node for `{norm(st)[:50]}`")
+                        out.append(pn)
+                return out if via_local else None
             for site, sc, flow, tags in feeds:
                 if sc is not scope or kind not in tags:
                     continue
@@ -764,12 +824,18 @@ def _descent_gaps(fi: FuncInfo, hr: HelperResolver, feeds: list[tuple[ast.AST, a
                     succ_names = [nm for nm, v in env.items() if flat(v) & {"S", "D"}]
                 if not succ_names:
                     feeders.append(node)
+                    pv = providers(flow, site if not isinstance(site, ast.Call) else ast.Tuple(elts=[*site.args, *[k.value for k in site.keywords]], ctx=ast.Load()))
+                    if pv is not None:
+                        through[node.id] = pv
                     continue
                 head = cfg.by_ast.get(id(L), [None])[0]
                 body = cfg.succ(head, "T") if head is not None else []
                 if head is None or len(body) != 1:
                     raise AnalysisError(f"{fi.fq}: no CFG node for the loop over the successors")
                 feeders.append(head)
+                pv = providers(flow, L.iter)
+                if pv is not None:
+                    through[head.id] = pv
                 # (1) per successor
                 for dyn, stat in ((True, False), (False, True), (True, True)):
                     def decide(leaf: ast.AST, dyn: bool = dyn, stat: bool = stat) -> bool | None:
@@ -807,7 +873,7 @@ def _descent_gaps(fi: FuncInfo, hr: HelperResolver, feeds: list[tuple[ast.AST, a
                 upto = ex.passed[:cut]
                 if ex.kind == "loop" and cut == len(ex.passed) and ex.node is not stop:
                     continue
-                if not any(q in upto for q in feeders):
+                if not any(q in upto and (q.id not in through or any(pn in upto[: upto.index(q)] for pn in through[q.id])) for q in feeders):
                     gaps.append(f"with {x}.{attr} non-empty a traversal step can end without handing the {attr} successors on: " + cfg.fmt_path(upto)[:300])
                     break
     return gaps
@@ -873,6 +939,11 @@ def _r31_sort(ctx: Ctx, m: _Matcher) -> None:
                 isinstance(b, ast.Attribute) and b.attr == "weight" and isinstance(b.value, ast.Subscript)
                 and astq.is_name(b.value.value, p) and isinstance(b.value.slice, ast.Constant) and b.value.slice.value in (idx, idx - width)
             )
+        if rev is not None and not isinstance(rev, ast.Constant):
+            raise AnalysisError(f"{fi.fq}: cannot tell the direction of `{norm(c)[:70]}` (reverse is not a constant)")
+        if kf is not None and not shape and not all(isinstance(x, (ast.Name, ast.Attribute, ast.Subscript, ast.Constant, ast.UnaryOp, ast.USub, ast.expr_context)) for x in ast.walk(kf[1])):
+            # an element / attribute of the entry other than the part's weight is a different order; anything richer is not read
+            raise AnalysisError(f"{fi.fq}: cannot read what the sort key `{norm(kf[1])[:60]}` orders by")
         ctx.ob(
             "R3.1", "dynamic transitions are sorted ascending by the weight of their rule part", asc and shape,
             f"`{norm(c)}`: key is element {idx} (the RulePart appended by add()) `.weight`: {shape}" + (f" (key function returns `{norm(kf[1])}`)" if kf is not None and not isinstance(key, ast.Lambda) else "") + f"; ascending (no reverse): {asc}",
@@ -890,6 +961,14 @@ def _r31_sort(ctx: Ctx, m: _Matcher) -> None:
         feeds: list[tuple[ast.AST, ast.AST, StateFlow, set[str]]] = []  # (site, function it is in, flow of that function, successor kinds fed)
         start_at: ast.AST | None = None  # work list: the statement that takes the next state; the traversal step starts there
         how = ""
+        unknown_start = False  # the traversal is started with a value that may or may not be the root (a name / attribute the analysis cannot place)
+
+        def seed(a0: ast.AST) -> set[str]:
+            nonlocal unknown_start
+            tags = flat(flow.ev(a0, {}))
+            if "?" in tags and not isinstance(a0, (ast.Call, ast.Constant)):  # a new object / a constant is known not to be the root
+                unknown_start = True
+            return tags
         params = [a.arg for a in F.args.args]
         if F is not fi.node and p in params:
             pos = params.index(p) - (1 if params and params[0] in ("self", "cls") and p != params[0] else 0)
@@ -909,7 +988,7 @@ def _r31_sort(ctx: Ctx, m: _Matcher) -> None:
                 if runs(k, F):
                     a0 = astq.arg_or_kw(k, pos, p)
                     if a0 is not None:
-                        seeds |= flat(flow.ev(a0, {}))
+                        seeds |= seed(a0)
         elif (gen := _state_generator(ctx, fi, F, p)) is not None:
             # `for <p> in <generator>(root)`: the generator yields its state and calls itself for the successors
             G, q, gpos, site_call = gen
@@ -924,7 +1003,7 @@ def _r31_sort(ctx: Ctx, m: _Matcher) -> None:
                         feeds.append((k, G, gflow, tags))
             a0 = astq.arg_or_kw(site_call, gpos, q)
             if a0 is not None:
-                seeds |= flat(flow.ev(a0, {}))
+                seeds |= seed(a0)
         else:
             # work list: the state comes out of a container that the loop refills
             srcs = [v for _, v in astq.assigns_to(F, p) if v is not None]
@@ -939,6 +1018,7 @@ def _r31_sort(ctx: Ctx, m: _Matcher) -> None:
                     continue
                 if astq.enclosing(st, (ast.While, ast.For)) is None:
                     seeds |= flat(flow.elems(flow.ev(v, {})))
+                    unknown_start = unknown_start or "?" in seeds
                 else:
                     tags = flat(flow.elems(flow.ev(v, flow.env_at(st, F))))
                     fed |= tags
@@ -953,6 +1033,7 @@ def _r31_sort(ctx: Ctx, m: _Matcher) -> None:
                     if tags is not None:
                         if astq.enclosing(k, (ast.While, ast.For)) is None:
                             seeds |= tags
+                            unknown_start = unknown_start or "?" in seeds
                         else:
                             fed |= tags
                             feeds.append((k, F, flow, tags))
@@ -961,7 +1042,12 @@ def _r31_sort(ctx: Ctx, m: _Matcher) -> None:
                     tags = flat(flow.elems(flow.ev(x.value, flow.env_at(x, F))))
                     fed |= tags
                     feeds.append((x, F, flow, tags))
+        if "?" in seeds and not unknown_start:
+            seeds = (seeds - {"?"}) | {"something else"}
         into_static, into_dynamic, from_root = "S" in fed, "D" in fed, "root" in seeds
+        if (not (into_static and into_dynamic) and "?" in fed) or (not from_root and "?" in seeds):
+            # something the traversal feeds itself with (starts from) is not understood: it may well be the missing kind
+            raise AnalysisError(f"{fi.fq}: {how}: cannot tell which states some of the values handed on stand for (static successors seen: {into_static}, dynamic: {into_dynamic}, root: {from_root})")
         ctx.ob(
             "R3.1", "the sort visits every state of the machine", into_static and into_dynamic and from_root,
             f"{how}: fed with the values of {p}.static: {into_static}, with the targets of {p}.dynamic: {into_dynamic}; started at self._root: {from_root}",
@@ -969,6 +1055,7 @@ def _r31_sort(ctx: Ctx, m: _Matcher) -> None:
         )
         if into_static and into_dynamic:
             gaps = _descent_gaps(fi, hr, feeds, start_at)
+            gaps += [f"`{d[:80]}` leaves out successors that have transitions of their own" for fl in {id(f[2]): f[2] for f in feeds}.values() for d in fl.drops]
             ctx.ob(
                 "R3.1", "the traversal descends into every successor that has transitions of its own", not gaps,
                 f"{how}: on every path of a traversal step the static and the dynamic successors are fed - for each successor, or at least for each one whose .static / .dynamic is non-empty" if not gaps else "; ".join(gaps[:2]),
@@ -1565,10 +1652,12 @@ class _Propose(Exception):
 class _Frame:
     """one piece of code executed for a candidate rule: the body of a rule loop, or a helper it calls (whole function)."""
 
-    def __init__(self, cfg: CFG, locs: _Locals, mapping: Mapping, region: set[int] | None, head: Node | None, name: str):
+    def __init__(self, cfg: CFG, locs: _Locals, mapping: Mapping, region: set[int] | None, head: Node | None, name: str, var: str | None = None):
         self.cfg = cfg
         self.locs = locs
         self.mapping = mapping
+        self.var = var  # the loop variable, where the frame is the body of a rule loop
+        self.follow = False  # the frame follows a rule that was found through the function that called the helper: every test on the way has to be decided
         self.region = region  # ids of the AST nodes of the loop body; None: a whole function
         self.head = head
         self.name = name
@@ -1580,31 +1669,46 @@ class _Frame:
 
 
 class _RuleLoop:
-    def __init__(self, ctx: Ctx, m: _Matcher, cfg: CFG, locs: _Locals, fn: ast.AST, loop: ast.For, helpers: HelperResolver):
+    def __init__(self, ctx: Ctx, m: _Matcher, cfg: CFG, locs: _Locals, fn: ast.AST, loop: ast.For, helpers: HelperResolver,
+                 site: tuple[ast.Call, ast.AST, CFG, _Locals] | None = None):
+        """site: the loop runs over a parameter of the helper `fn`; (call of the helper, what that call hands in for the
+        parameter, CFG and locals of the function the call is in).  The loop is then judged as the loop of that call
+        site: over what the site hands in, and a rule the helper returns is followed through the calling function to the
+        `return` that hands it on (or not)."""
         self.loop = loop
         self.cfg = cfg
         if not isinstance(loop.target, ast.Name):
             raise AnalysisError(f"rule loop at line {loop.lineno}: target is not a single name")
         self.var = loop.target.id
-        self.map: Mapping = {self.var: "$r"}
+        self.map: dict[str, t.Union[str, ast.AST]] = {self.var: "$r"}
         heads = cfg.by_ast.get(id(loop))
         if not heads:
             raise AnalysisError(f"rule loop at line {loop.lineno}: no CFG node")
         self.head = heads[0]
         self.body_ids = {id(x) for st in loop.body for x in ast.walk(st)}
-        enc = astq.enclosing(loop, (ast.If,))
-        under = norm(enc.test) if isinstance(enc, ast.If) and _inside(enc, fn) else "always"
-        self.label = f"rule loop over {norm(loop.iter)} under `{under}`"
-        self.weight = m.loop_weight.get(id(loop), 1)
+        self.at: ast.AST = site[0] if site is not None else loop  # where the loop is, for the reader
+        it_expr: ast.AST = site[1] if site is not None else loop.iter
+        it_scope = _enclosing_func(site[0]) if site is not None else fn
+        enc = astq.enclosing(self.at, (ast.If,))
+        under = norm(enc.test) if isinstance(enc, ast.If) and it_scope is not None and _inside(enc, it_scope) else "always"
+        self.label = f"rule loop over {norm(it_expr)} under `{under}`" + (f" (in {getattr(fn, 'name', '?')}())" if site is not None else "")
+        self.weight = 1 if site is not None else m.loop_weight.get(id(loop), 1)
+        if site is not None:
+            # the other parameters of the helper stand for what this call hands in, where that is a constant (`lenient_only=True`)
+            bound = bind_call(fn, site[0], False) or {}
+            for prm, arg in bound.items():
+                if isinstance(arg, ast.Constant) and prm != self.var and not astq.assigns_to(fn, prm):
+                    self.map[prm] = arg  # type: ignore[index]
+        self.covered: set[int] = set(self.body_ids)  # ids of the AST nodes the execution for a rule can pass: the body, the helpers it calls
         self.m = m
         self.helpers = helpers
         self.locals = locs
         # atoms: the leaves of every test executed for a rule - in the body and in the helpers called from it with the
         # rule -, local flags / aliases replaced by what they stand for, a helper's parameters by its arguments
         self.atoms: dict[str, bool] = {}  # key -> request dependent
-        self.frame = _Frame(cfg, locs, self.map, self.body_ids, self.head, self.label)
+        self.frame = _Frame(cfg, locs, self.map, self.body_ids, self.head, self.label, self.var)
         # a rule the iteration filters out is not looked at at all: the filter's conditions are tested first
-        it = _rules_iteration(loop.iter, fn)
+        it = _rules_iteration(it_expr, it_scope)
         self.pre: list[tuple[_Frame, ast.AST, bool]] = []
         for prm, cond, want in (it[1] if it is not None else []):
             pf = _Frame(cfg, locs, {prm: "$r"}, set(), None, "filter of " + self.label)
@@ -1616,6 +1720,10 @@ class _RuleLoop:
                 self.atoms[key] = self.atoms.get(key, False) or bool(astq.names_in(ren) & set(m.request_params))
             self.pre.append((pf, cond, want))
         self._collect(self.frame, 0)
+        # a rule the helper returns is returned by the search only if the call site hands it on
+        self.resume: tuple[str, _Frame | None, Node | None, str | None] = ("hit", None, None, None)
+        if site is not None:
+            self.resume = self._site_continuation(site[0], site[2], site[3])
         self.keys = sorted(self.atoms)
         self.admission = [k for k in self.keys if not self.atoms[k]]
         self.request = [k for k in self.keys if self.atoms[k]]
@@ -1625,6 +1733,48 @@ class _RuleLoop:
         self.table: dict[tuple[bool, ...], frozenset[str]] = {}
         for bits in itertools.product((False, True), repeat=len(self.keys)):
             self.table[bits] = self._run(dict(zip(self.keys, bits)))
+
+    def _site_continuation(self, call: ast.Call, ccfg: CFG, clocs: _Locals) -> tuple[str, _Frame | None, Node | None, str | None]:
+        """what becomes of the rule the helper returns to this call site: ("hit", ...) it is returned as it is,
+        ("hit-dropped", ...) the value is thrown away, ("walk", frame of the calling function, node to go on from, the
+        local that holds the rule): decided per valuation by going on in the caller - the conditions over the rule that
+        the caller tests before it returns it join the loop's atoms."""
+        v, consumer = _bound_name(call)
+        if v is None:
+            while isinstance(consumer, (ast.Tuple, ast.Starred)):
+                consumer = astq.parent(consumer)
+            if isinstance(consumer, ast.Return):
+                return ("hit", None, None, None)
+            if isinstance(consumer, ast.Expr):
+                return ("hit-dropped", None, None, None)
+            raise AnalysisError(f"{self.label}: what `{norm(call)[:60]}` returns is consumed by `{norm(consumer)[:60] if consumer is not None else '?'}`; cannot follow the rule to the statement that returns it")
+        C = ccfg.node_of(call)
+        if C is None:
+            raise AnalysisError(f"{self.label}: no CFG node for `{norm(call)[:60]}`")
+        if C.kind == "test":
+            start: Node | None = C
+        else:
+            nxt = ccfg.succ(C, None)
+            start = nxt[0] if nxt else None
+        if start is None:
+            return ("hit-dropped", None, None, None)
+        fr = _Frame(ccfg, clocs, {v: "$r"}, set(), None, f"the call site of {self.label}")
+        fr.follow = True
+        reach = ccfg.reach(C) | {C.id}
+        for tn in ccfg.tests():
+            if tn.kind != "test" or tn.id not in reach:
+                continue
+            ex = _unwalrus(clocs.expand(tn.ast, tn), {v})  # type: ignore[arg-type]
+            for leaf in _leaves(ex):
+                if isinstance(leaf, ast.Constant) or v not in astq.names_in(leaf):
+                    continue
+                ren = _renamed(leaf, fr.mapping)
+                cp = astq.cmp_parts(ren)
+                if astq.is_name(ren, "$r") or (cp is not None and astq.is_name(cp[0], "$r") and astq.is_none(cp[2])):
+                    continue  # "a rule was found": decided by the execution itself
+                key, _ = guards.canon(ren)
+                self.atoms[key] = self.atoms.get(key, False) or bool(astq.names_in(ren) & set(self.m.request_params))
+        return ("walk", fr, start, v)
 
     # -- atoms ---------------------------------------------------------
     def _helper_frame(self, fr: _Frame, call: ast.Call, at: Node, depth: int) -> _Frame | None:
@@ -1643,6 +1793,7 @@ class _RuleLoop:
         a = fn.args  # type: ignore[attr-defined]
         hcfg = self.helpers.cfg(fn)
         sub = _Frame(hcfg, _Locals(hcfg, [x.arg for x in [*a.posonlyargs, *a.args, *a.kwonlyargs]]), mapping, None, None, f"{fn.name}(...)")  # type: ignore[attr-defined]
+        self.covered |= {id(x) for x in ast.walk(fn)}
         self._collect(sub, depth + 1)
         return sub
 
@@ -1666,6 +1817,8 @@ class _RuleLoop:
             if self._flag_of_helper(fr, leaf, n):
                 continue
             ren = _renamed(leaf, fr.mapping)
+            if isinstance(ren, ast.Constant):
+                continue
             key, _ = guards.canon(ren)
             self.atoms[key] = self.atoms.get(key, False) or bool(astq.names_in(ren) & set(self.m.request_params))
 
@@ -1723,8 +1876,11 @@ class _RuleLoop:
         if isinstance(e, ast.Call) and id(e) in fr.calls:
             return self._invoke(fr.calls[id(e)], val, acts)
         # the rule itself (the loop variable, a local it was copied to, a parameter it was passed as) is not None
-        ren = _renamed(e, {**fr.mapping, **{k: "$r" for k, v in env.items() if v == "$r"}})
+        held = {k for k, v in env.items() if v == "$r"}
+        ren = _renamed(_unwalrus(e, held), {**fr.mapping, **{k: "$r" for k in held}})
         cp = astq.cmp_parts(ren)
+        if isinstance(ren, ast.Constant):
+            return bool(ren.value)
         if astq.is_name(ren, "$r"):
             return True
         if cp is not None and astq.is_name(cp[0], "$r") and astq.is_none(cp[2]) and isinstance(cp[1], (ast.Is, ast.IsNot, ast.Eq, ast.NotEq)):
@@ -1764,6 +1920,8 @@ class _RuleLoop:
                 if after:
                     truth = self._truth(fr, fr.locs.expand(n.ast, n), val, acts, env, strict=False)  # type: ignore[arg-type]
                     if truth is None:
+                        if fr.follow:
+                            raise AnalysisError(f"{self.label}: cannot decide `{norm(n.ast)[:60]}`, which stands between the rule the helper returns and the statement that returns it")
                         return "leave", None
                 else:
                     truth = self._truth(fr, fr.expanded[n.id], val, acts, env)
@@ -1773,6 +1931,8 @@ class _RuleLoop:
                 n = s[0]
                 continue
             if n.kind != "stmt":
+                if after and fr.follow:
+                    raise AnalysisError(f"{self.label}: the rule the helper returns runs into `{n.text()[:40]}` before it is returned; cannot follow it")
                 if after:
                     return "leave", None
                 raise AnalysisError(f"{self.label}: unexpected `{n.kind}` node ({n.text()[:40]}) inside {fr.name}")
@@ -1782,7 +1942,7 @@ class _RuleLoop:
                     if a.value is None:
                         return "ret", False
                     return "ret", self._truth(fr, fr.expanded[n.id], val, acts, env)
-                carriers = {self.var} | {k for k, v in env.items() if v == "$r"}
+                carriers = ({fr.var} if fr.var else set()) | {k for k, v in env.items() if v == "$r"}
                 hit = a.value is not None and bool(carriers & astq.names_in(a.value))
                 return ("hit" if hit else "leave" if after else "return-other"), None
             if isinstance(a, ast.Raise) or cfg._is_noreturn_call(a):
@@ -1790,7 +1950,7 @@ class _RuleLoop:
                 # so no 405 bookkeeping is owed for it (whether the proposal itself is method-guarded is C12-R12.5)
                 if fr.region is None:
                     return "raise", None
-                return ("leave" if after else "propose"), None
+                return ("leave" if after and not fr.follow else "propose"), None
             v = a.value if isinstance(a, (ast.Assign, ast.AnnAssign, ast.Expr)) else None
             if isinstance(v, ast.Call) and id(v) in fr.calls and not after:
                 ans = self._invoke(fr.calls[id(v)], val, acts)
@@ -1798,7 +1958,7 @@ class _RuleLoop:
                     if isinstance(tg, ast.Name):
                         env[tg.id] = ans
             elif isinstance(a, (ast.Assign, ast.AnnAssign)) and v is not None:
-                carried = astq.is_name(v, self.var) and fr.region is not None or (isinstance(v, ast.Name) and env.get(v.id) == "$r")
+                carried = (fr.var is not None and astq.is_name(v, fr.var)) or (isinstance(v, ast.Name) and env.get(v.id) == "$r")
                 for tg in (a.targets if isinstance(a, ast.Assign) else [a.target]):
                     if isinstance(tg, ast.Name):
                         if carried:
@@ -1827,6 +1987,13 @@ class _RuleLoop:
             st, _ = self._walk(self.frame, nxt[0], val, acts, {})
         except _Propose:
             st = "propose"
+        if st == "hit" and self.resume[0] != "hit":
+            # the helper found the rule: does the call site return it?
+            how, cfr, start, v = self.resume
+            st = "hit-dropped"
+            if how == "walk" and cfr is not None and start is not None and v is not None:
+                st2, _ = self._walk(cfr, start, val, acts, {v: "$r"})
+                st = st2 if st2 in ("hit", "propose") else "hit-dropped"
         return frozenset(acts if st == "next" else acts | {st})
 
     # -- queries on the truth table --
@@ -1864,8 +2031,36 @@ def _rule_loops(ctx: Ctx, m: _Matcher) -> list[_RuleLoop]:
         if id(fn) not in locs:
             a = fn.args  # type: ignore[union-attr]
             locs[id(fn)] = _Locals(cfgs[id(fn)], [x.arg for x in [*a.posonlyargs, *a.args, *a.kwonlyargs]])
-        out.append(_RuleLoop(ctx, m, cfgs[id(fn)], locs[id(fn)], fn, n, helpers))
-    out.sort(key=lambda l: l.loop.lineno)
+        if id(n) not in m.loop_sites:
+            out.append(_RuleLoop(ctx, m, cfgs[id(fn)], locs[id(fn)], fn, n, helpers))
+            continue
+        for call, arg in m.loop_sites[id(n)]:  # one loop per call site of the helper, over what that site hands in
+            caller = _enclosing_func(call)
+            if caller is None or isinstance(caller, ast.Lambda):
+                raise AnalysisError(f"{m.match.fq}: `{norm(call)[:60]}` is not called from a function")
+            if id(caller) not in cfgs:
+                cfgs[id(caller)] = CFG(caller)
+            if id(caller) not in locs:
+                ca = caller.args  # type: ignore[union-attr]
+                locs[id(caller)] = _Locals(cfgs[id(caller)], [x.arg for x in [*ca.posonlyargs, *ca.args, *ca.kwonlyargs]])
+            out.append(_RuleLoop(ctx, m, cfgs[id(fn)], locs[id(fn)], fn, n, helpers, (call, arg, cfgs[id(caller)], locs[id(caller)])))
+    out.sort(key=lambda l: (getattr(l.at, "lineno", 0), getattr(l.at, "col_offset", 0)))
+    return out
+
+
+def _recording_sites(m: _Matcher) -> list[ast.AST]:
+    """every statement of match() (closures included) that adds methods to H or sets W: the bookkeeping the rule loops
+    are judged on."""
+    out: list[ast.AST] = []
+    for x in ast.walk(m.match.node):
+        if isinstance(x, ast.Expr) and isinstance(x.value, ast.Call):
+            c = x.value
+            if isinstance(c.func, ast.Attribute) and astq.is_name(c.func.value, m.H) and c.func.attr in ("update", "add", "__ior__"):
+                out.append(x)
+        elif isinstance(x, ast.AugAssign) and astq.is_name(x.target, m.H):
+            out.append(x)
+        elif isinstance(x, ast.Assign) and m.W is not None and any(astq.is_name(tg, m.W) for tg in x.targets) and isinstance(x.value, ast.Constant) and x.value.value is True:
+            out.append(x)
     return out
 
 
@@ -1874,9 +2069,15 @@ def _r32(ctx: Ctx, m: _Matcher) -> None:
     if m.H is None:
         raise AnalysisError(f"{fi.fq}: cannot identify the set that collects the methods of discarded rules")
     loops = _rule_loops(ctx, m)
-    ctx.floor("R3.2", "loops over candidate rules in the search", sum(l.weight for l in loops), 3)
+    # how many loops there are is a matter of style (two loops that do the same may be one helper, a third one may be
+    # folded in): the floors only guard against finding none; that no bookkeeping escapes the analysis is asked directly
+    ctx.floor("R3.2", "loops over candidate rules in the search", sum(l.weight for l in loops), 1)
     hitting = [l for l in loops if any(("hit" in o or "propose" in o) for o in l.table.values())]
-    ctx.floor("R3.2", "rule loops that can return / propose a rule", sum(l.weight for l in hitting), 3)
+    ctx.floor("R3.2", "rule loops that can return / propose a rule", sum(l.weight for l in hitting), 1)
+    seen = set().union(*[l.covered for l in loops]) if loops else set()
+    stray = [x for x in _recording_sites(m) if id(x) not in seen]
+    if stray:
+        raise AnalysisError(f"{fi.fq}: `{norm(stray[0])[:60]}` (line {getattr(stray[0], 'lineno', '?')}) records methods / a websocket mismatch outside every loop over candidate rules the analysis follows")
     for l in loops:
         odd = sorted({a for o in l.table.values() for a in o if a in ("record-other", "wsflag-other", "return-other", "dead")})
         if odd:
@@ -1896,7 +2097,7 @@ def _r32(ctx: Ctx, m: _Matcher) -> None:
             (f"path-admission atoms {l.admission or '(none)'}; every row that records has a row with the same admission atoms that returns the rule"
              if bad is None else
              f"row [{l.fmt(bad[0])}] performs {sorted(bad[1])} although no method / websocket makes the loop return a rule with admission atoms [{l.fmt(bad[0], l.admission)}]: a rule that does not admit the path is reported in have_match_for (405 instead of 404)"),
-            fi, l.loop, f"{l.label}: records only admitted rules",
+            fi, l.at, f"{l.label}: records only admitted rules",
         )
     # (B)+(C) an admitted rule discarded only because of its methods is recorded; siblings agree
     for l in hitting:
@@ -1941,7 +2142,7 @@ def _r32(ctx: Ctx, m: _Matcher) -> None:
                 s, u, missing = bad_b
                 parts.append(f"sibling `{s.label}` performs {missing} on row [{', '.join(k + '=' + ('T' if u[k] else 'F') for k in sorted(u))}] where this loop does not")
             fact = "; ".join(parts)
-        ctx.ob("R3.2", f"{l.label}: a rule discarded because of its methods is recorded in {m.H} (siblings agree)", ok, fact, fi, l.loop,
+        ctx.ob("R3.2", f"{l.label}: a rule discarded because of its methods is recorded in {m.H} (siblings agree)", ok, fact, fi, l.at,
                f"{l.label}: discarded methods recorded")
 
 
